@@ -41,6 +41,7 @@ import (
 	"gitlab.com/aquachain/aquachain/core"
 	"gitlab.com/aquachain/aquachain/core/bloombits"
 	"gitlab.com/aquachain/aquachain/core/types"
+	"gitlab.com/aquachain/aquachain/crypto"
 	"gitlab.com/aquachain/aquachain/params"
 	"gitlab.com/aquachain/aquachain/rpc"
 	"verifharness/hx"
@@ -113,6 +114,14 @@ func logID(l *types.Log) uint64 {
 }
 
 type receiptSet [][]lg
+
+func (rs receiptSet) flat() []lg {
+	var out []lg
+	for _, r := range rs {
+		out = append(out, r...)
+	}
+	return out
+}
 
 func (rs receiptSet) tok() string {
 	if len(rs) == 0 {
@@ -239,6 +248,23 @@ func idsTok(ids []uint64) string {
 	return strings.Join(p, ",")
 }
 
+// searchCoinciding returns a random n-byte item at least two of whose three bloom bit indexes (bytes 0..5 of its Keccak-256,
+// 11 bits each) are equal, the shared index satisfying want.
+func searchCoinciding(r *hx.Rng, n int, want func(bit uint) bool) []byte {
+	for {
+		b := r.Bytes(n)
+		h := crypto.Keccak256(b)
+		var ix [3]uint
+		for i := 0; i < 3; i++ {
+			ix[i] = (uint(h[2*i+1]) + uint(h[2*i])<<8) & 2047
+		}
+		switch {
+		case ix[0] == ix[1] && want(ix[0]), ix[0] == ix[2] && want(ix[0]), ix[1] == ix[2] && want(ix[1]):
+			return b
+		}
+	}
+}
+
 // ---------------------------------------------------------------------------------------------------------------------
 // generators
 
@@ -249,13 +275,21 @@ type gen struct {
 
 func (g *gen) addr() item {
 	if g.r.Intn(12) == 0 {
-		return itX(g.r.Bytes(20))
+		b := g.r.Bytes(20)
+		if g.r.Intn(4) == 0 {
+			b[0] = 0 // leading zero byte (big.Int round trips would drop it)
+		}
+		return itX(b)
 	}
 	return itA(g.r.Intn(len(poolA)))
 }
 func (g *gen) topic() item {
 	if g.r.Intn(12) == 0 {
-		return itX(g.r.Bytes(32))
+		b := g.r.Bytes(32)
+		if g.r.Intn(4) == 0 {
+			b[0] = 0
+		}
+		return itX(b)
 	}
 	return itT(g.r.Intn(len(poolT)))
 }
@@ -357,17 +391,21 @@ func (g *gen) partBloom(n int) {
 			return fmt.Sprintf("%d,%d,%d", ix[0], ix[1], ix[2])
 		}))
 	}
-	{ // deterministic probe: an address with a leading zero byte is covered for BloomLookup; TestBytes denies it (known quirk)
-		z := itX(append([]byte{0}, poolA[0][1:]...))
+	// deterministic probes: addresses and topics with 1..3 leading zero bytes are covered for BloomLookup AND for TestBytes
+	for nz := 1; nz <= 3; nz++ {
+		za := itX(append(make([]byte, nz), poolA[0][nz:]...))
+		zt := itX(append(make([]byte, nz), poolT[0][nz:]...))
 		rc := types.NewReceipt(nil, false, 0)
-		rc.Logs = []*types.Log{{Address: common.BytesToAddress(z.b)}}
+		rc.Logs = []*types.Log{{Address: common.BytesToAddress(za.b), Topics: []common.Hash{common.BytesToHash(zt.b)}}}
 		b := types.CreateBloom(types.Receipts{rc})
-		run.Case("lk "+bloomHex(b)+" "+z.tok, strconv.FormatBool(types.BloomLookup(b, common.BytesToAddress(z.b))))
-		run.Case("tb "+bloomHex(b)+" "+z.tok, strconv.FormatBool(b.TestBytes(z.b)))
-		if !types.BloomLookup(b, common.BytesToAddress(z.b)) {
-			run.Violate("bloom-false-negative", "bloom-false-negative", "probe "+z.tok, "leading-zero address not covered for BloomLookup")
+		for _, z := range []item{za, zt} {
+			run.Count("op:tb-leading-zero-probe")
+			run.Case("lk "+bloomHex(b)+" "+z.tok, strconv.FormatBool(types.BloomLookup(b, raw(z.b))))
+			run.Case("tb "+bloomHex(b)+" "+z.tok, strconv.FormatBool(b.TestBytes(z.b)))
+			if !types.BloomLookup(b, raw(z.b)) || !b.TestBytes(z.b) {
+				run.Violate("bloom-false-negative", "bloom-false-negative-leading-zero", "probe "+z.tok, "item with leading zero bytes of a covered log tests negative (BloomLookup/TestBytes)")
+			}
 		}
-		run.Notes["testbytes_leading_zero_false_negative"] = !b.TestBytes(z.b)
 	}
 	for i := 0; i < n; i++ {
 		rs := g.receipts(uint64(i * 100))
@@ -394,20 +432,17 @@ func (g *gen) partBloom(n int) {
 					if !types.BloomLookup(hdr, bb) || !types.BloomLookup(rb, bb) || !types.BloomLookup(lb, bb) {
 						run.Violate("bloom-false-negative", "bloom-false-negative", "cb "+rs.tok()+" item "+it.tok, "an item of a covered log tests negative")
 					}
-					// Bloom.TestBytes/Test hash big.Int.Bytes() (leading zero bytes dropped): only items without a leading
-					// zero byte are required to test positive there (see testBytes_leading_zero_witness); both are compared
-					// with the model in any case.
+					// Bloom.TestBytes is an exported bloom test: it must be positive for every covered item, leading zero bytes
+					// or not (fix 7d17e77), on the header bloom and on the receipt bloom. (Bloom.Test takes a *big.Int, whose
+					// Bytes() has no leading zeros by construction; it is only required to agree with TestBytes on such items.)
 					tb := hdr.TestBytes(bb.Bytes())
 					run.Count("op:tb")
 					run.Case("tb "+bloomHex(hdr)+" "+it.tok, strconv.FormatBool(tb))
-					if tb != hdr.Test(new(big.Int).SetBytes(bb.Bytes())) {
-						run.Violate("testbytes-differs-from-test", "testbytes-differs-from-test", "tb "+it.tok, "TestBytes != Test")
+					if !tb || !rb.TestBytes(bb.Bytes()) {
+						run.Violate("bloom-false-negative", "bloom-false-negative-testbytes", "cb "+rs.tok()+" item "+it.tok, "TestBytes negative on an item of a covered log")
 					}
-					if len(bb.Bytes()) > 0 && bb.Bytes()[0] != 0 && !tb {
-						run.Violate("bloom-false-negative", "bloom-false-negative-testbytes", "cb "+rs.tok()+" item "+it.tok, "TestBytes negative on a covered item without leading zero")
-					}
-					if !tb {
-						run.Count("tb:false-negative-leading-zero")
+					if len(bb.Bytes()) > 0 && bb.Bytes()[0] != 0 && tb != hdr.Test(new(big.Int).SetBytes(bb.Bytes())) {
+						run.Violate("testbytes-differs-from-test", "testbytes-differs-from-test", "tb "+it.tok, "TestBytes != Test on an item without leading zero")
 					}
 				}
 			}
@@ -751,14 +786,22 @@ func (g *gen) partMatcher(nsets, nq int, sizes []int) {
 		total := size * sections
 		// blooms: most blocks empty; some carry pool items (+ noise bits), clustered at byte and section edges
 		bits := map[int][]int{}
+		blockItems := map[int][]item{}
 		nb := 10 + g.r.Intn(30)
-		for k := 0; k < nb; k++ {
+		forced := []int{0, total - 1} // first block, last block and every section multiple always carry items
+		for k := 1; k < sections; k++ {
+			forced = append(forced, k*size, k*size-1)
+		}
+		for k := 0; k < nb+len(forced); k++ {
 			n := g.r.Intn(total)
 			switch g.r.Intn(4) {
 			case 0:
 				n = (g.r.Intn(sections+1)*size + g.r.Intn(5) - 2 + total) % total
 			case 1:
 				n = (g.r.Intn(total/8)*8 + g.r.Pick([]int{0, 7, 8})) % total
+			}
+			if k < len(forced) {
+				n = forced[k]
 			}
 			acc := new(big.Int)
 			ni := 1 + g.r.Intn(4)
@@ -767,6 +810,8 @@ func (g *gen) partMatcher(nsets, nq int, sizes []int) {
 				if g.r.Bool() {
 					it = g.addr()
 				}
+				blockItems[n] = append(blockItems[n], it)
+				// the block's bloom is built the way LogsBloom builds it: OR of bloom9 of its items
 				acc.Or(acc, types.Bloom9(it.b))
 			}
 			var bl []int
@@ -802,7 +847,7 @@ func (g *gen) partMatcher(nsets, nq int, sizes []int) {
 			fs, ftok := g.filterGroups()
 			begin := uint64(g.r.Intn(total))
 			end := uint64(g.r.Intn(total))
-			switch g.r.Intn(6) {
+			switch g.r.Intn(8) {
 			case 0:
 				begin, end = 0, uint64(total-1)
 			case 1:
@@ -816,6 +861,20 @@ func (g *gen) partMatcher(nsets, nq int, sizes []int) {
 				end = begin + uint64(g.r.Intn(20))
 				if end >= uint64(total) {
 					end = uint64(total - 1)
+				}
+			case 4, 5: // range END (or begin) exactly at a section multiple / the first / the last block, filter taken from that block
+				tgt := forced[g.r.Intn(len(forced))]
+				if its := blockItems[tgt]; len(its) > 0 {
+					it := its[g.r.Intn(len(its))]
+					fs, ftok = [][][]byte{{it.b}}, it.tok
+				}
+				end = uint64(tgt)
+				begin = 0
+				if tgt > 0 && g.r.Bool() {
+					begin = uint64(g.r.Intn(tgt + 1))
+				}
+				if g.r.Intn(4) == 0 {
+					begin, end = end, uint64(total-1) // begin at the multiple instead
 				}
 			}
 			line := fmt.Sprintf("mq %s %d %d", ftok, begin, end)
@@ -1101,6 +1160,12 @@ func (g *gen) query(be *backend, cd chainData, chainLine string, begin, end int6
 	if begin == -1 || end == -1 {
 		run.Count("q-range:open-end")
 	}
+	if cd.size > 0 && e > 0 && e%int64(cd.size) == 0 && e < int64(indexed) {
+		run.Count("q-range:end-at-indexed-section-multiple")
+		if len(ids) > 0 && ids[len(ids)-1]/100 == uint64(e) {
+			run.Count("q-range:end-at-indexed-section-multiple-with-match-in-last-block")
+		}
+	}
 	if len(ids) > 0 {
 		run.Count("q:nonempty")
 	}
@@ -1130,6 +1195,11 @@ func (g *gen) partChains(specs []chainSpec, nq int) {
 				want[e] = true
 			}
 		}
+		var multiples []int // every section multiple (and the block before it) always holds logs
+		for s := 1; s*size <= head; s++ {
+			want[s*size], want[s*size-1] = true, true
+			multiples = append(multiples, s*size)
+		}
 		nr := 8 + g.r.Intn(25)
 		for k := 0; k < nr; k++ {
 			n := 1 + g.r.Intn(head)
@@ -1148,6 +1218,11 @@ func (g *gen) partChains(specs []chainSpec, nq int) {
 		sort.Ints(cd.nums)
 		for _, n := range cd.nums {
 			rs := g.receipts(uint64(n) * 100)
+			if n%size == 0 || (n+1)%size == 0 { // never empty at a section edge
+				for tries := 0; tries < 20 && len(rs.flat()) == 0; tries++ {
+					rs = g.receipts(uint64(n) * 100)
+				}
+			}
 			cd.blocks[n] = rs
 			for _, r := range rs {
 				allLogs = append(allLogs, r...)
@@ -1162,7 +1237,7 @@ func (g *gen) partChains(specs []chainSpec, nq int) {
 			}
 			c := g.crit(from)
 			begin, end := int64(g.r.Intn(head+3)), int64(g.r.Intn(head+6))
-			switch g.r.Intn(10) {
+			switch g.r.Intn(11) {
 			case 0:
 				begin, end = 0, -1
 			case 1:
@@ -1190,6 +1265,24 @@ func (g *gen) partChains(specs []chainSpec, nq int) {
 			case 7:
 				if end < begin {
 					begin, end = end, begin
+				}
+			case 8: // the range ends (or begins) exactly at a section multiple; criteria from a log of that very block
+				if len(multiples) > 0 {
+					m := multiples[g.r.Intn(len(multiples))]
+					if ls := cd.blocks[m].flat(); len(ls) > 0 {
+						c = g.crit(&ls[g.r.Intn(len(ls))])
+						if g.r.Bool() { // make sure it matches: only the log's own address
+							c = crit{addrs: []item{ls[0].addr}}
+						}
+					}
+					end = int64(m)
+					begin = int64(g.r.Intn(m + 1))
+					if g.r.Intn(3) == 0 {
+						begin = 0
+					}
+					if g.r.Intn(5) == 0 {
+						begin, end = int64(m), int64(head)
+					}
 				}
 			}
 			if begin < -1 {
@@ -1397,6 +1490,14 @@ func main() {
 	for i := 0; i < 8; i++ {
 		poolT = append(poolT, pr.Bytes(32))
 	}
+	// items whose three bloom indexes are not distinct (about 1 in 700 items): two equal indexes with the shared bit at position 7
+	// of its byte / elsewhere, found by search with the real Keccak. They exercise "set the bit" vs "add the bit".
+	poolA[4] = searchCoinciding(pr, 20, func(bit uint) bool { return bit%8 != 7 })
+	poolA[5] = searchCoinciding(pr, 20, func(bit uint) bool { return bit%8 == 7 })
+	poolT[6] = searchCoinciding(pr, 32, func(bit uint) bool { return bit%8 != 7 })
+	poolT[7] = searchCoinciding(pr, 32, func(bit uint) bool { return bit%8 == 7 })
+	poolA[3][0] = 0 // one pool address and one pool topic with a leading zero byte
+	poolT[5][0], poolT[5][1] = 0, 0
 	as := make([]string, len(poolA))
 	for i, a := range poolA {
 		as[i] = fmt.Sprintf("%x", a)
